@@ -220,6 +220,21 @@ impl Buf for Pieces {
             None => &[],
         }
     }
+    fn chunks_vectored<'a>(&'a self, dst: &mut [std::io::IoSlice<'a>]) -> usize {
+        // not used by the code as it is; the candidate repair of D-20f looks at all chunks through this
+        let mut n = 0;
+        for (i, p) in self.parts.iter().enumerate() {
+            if n == dst.len() {
+                break;
+            }
+            let s = if i == 0 { &p[self.off..] } else { &p[..] };
+            if !s.is_empty() {
+                dst[n] = std::io::IoSlice::new(s);
+                n += 1;
+            }
+        }
+        n
+    }
     fn advance(&mut self, mut cnt: usize) {
         while cnt > 0 {
             let avail = self.parts.front().map(|p| p.len()).expect("advance past the end") - self.off;
